@@ -97,7 +97,7 @@ func treeClasses(s amf0ref.Stats) []string {
 }
 
 func TestTree(t *testing.T) {
-	ev.Rapid(t, "tree", 8000, 600000, func(t *rapid.T) {
+	ev.Rapid(t, "tree", 8000, 4000000, func(t *rapid.T) {
 		v := amf0x.Gen(t, amf0x.Opts{MaxDepth: 8, MaxNodes: 40, DistinctKeys: true, BigStrings: true})
 		err := ev.Try(func() error { return checkTree(v) })
 		cl := treeClasses(amf0ref.Measure(v))
@@ -266,7 +266,7 @@ var recMachine = ev.New(prop, "container-machine",
 	Require("replace+reopen", "nested-mutation")
 
 func TestContainerMachine(t *testing.T) {
-	ev.Rapid(t, "container-machine", 4000, 300000, func(t *rapid.T) {
+	ev.Rapid(t, "container-machine", 4000, 2000000, func(t *rapid.T) {
 		c := MCase{Kind: rapid.SampledFrom([]amf0ref.Kind{amf0ref.Object, amf0ref.Ecma, amf0ref.Strict}).Draw(t, "kind")}
 		pool := [][]byte{[]byte(""), []byte("a"), []byte("b"), []byte("app"), amf0x.GenKey(t), amf0x.GenKey(t)}
 		n := rapid.IntRange(1, 30).Draw(t, "nops")
@@ -362,7 +362,7 @@ var recGrammar = ev.New(prop, "grammar-bytes",
 	Require("repeated-key", "trailing", "count-mismatch", "odd-bool")
 
 func TestGrammarBytes(t *testing.T) {
-	ev.Rapid(t, "grammar-bytes", 8000, 600000, func(t *rapid.T) {
+	ev.Rapid(t, "grammar-bytes", 8000, 4000000, func(t *rapid.T) {
 		c := GCase{Val: amf0x.Gen(t, amf0x.Opts{MaxDepth: 6, MaxNodes: 30, WireFreedom: true})}
 		if rapid.Bool().Draw(t, "trailk") {
 			c.Trail = rapid.SliceOfN(rapid.Byte(), 1, 16).Draw(t, "trail")
